@@ -232,7 +232,7 @@ def run(chk, R, tier, seed):
     syms = list(SI.UNITS)
     wrap = lambda jd: (lambda obs, rec, case: jd(obs))      # noqa: E731
     cases = []
-    per = 8 if tier == "quick" else 120
+    per = 20 if tier == "quick" else 120
     for sym in syms:
         for _ in range(per):
             st, jd = ctor_sub(chk, rng, w, "predefined", sym)
@@ -243,7 +243,7 @@ def run(chk, R, tier, seed):
         cases.append(Case(st, wrap(jd)))
     run_cases(chk, R, cases, per_program=80)
     # synthetic worlds with awkward symbols
-    nw = 20 if tier == "quick" else 400
+    nw = 50 if tier == "quick" else 400
     cases = []
     odd = ["µx", "a b", "x/y", "°X", "Ω", "m²s", "kg·m", "x_1", "a  b", "€"]
     for wi in range(nw):
